@@ -64,6 +64,7 @@ EXTRACTION_DROPS = [
     "docstrings and comments",
     "the text of exception messages (class and path condition are kept)",
     "import statements (imported names are bound to assumed contracts)",
+    "nothing else: a decorated function is rejected (outside the subset) rather than verified without its decorator",
 ]
 
 TASK_FILES = {"layer1": "circuitgraph/circuit.py", "C07": "circuitgraph/circuit.py", "C16": "circuitgraph/circuit.py", "C20": "circuitgraph/utils.py", "C04": "circuitgraph/tx.py", "C13": "circuitgraph/utils.py", "C01": "circuitgraph/sat.py"}
